@@ -255,3 +255,20 @@ func FamilyDifat() []Spec {
 	out = append(out, s)
 	return out
 }
+
+// FamilyFatResidue (512-byte sectors): one small stream plus a filler stream
+// whose length runs through `window` consecutive sector counts starting at
+// `from`. 128 FAT entries fit a sector, so a window of more than 128 makes the
+// number of sectors in use - before and after anything a signing adds - pass
+// through every residue modulo the FAT sector capacity, including the sizes at
+// which the allocation table is exactly full and the table has to grow for its
+// own new sector.
+func FamilyFatResidue(from, window int) []Spec {
+	var out []Spec
+	for n := from; n < from+window; n++ {
+		s := base("fatresidue", 3)
+		s.Streams = sizedStreams([]int{65, n * 512})
+		out = append(out, s)
+	}
+	return out
+}
